@@ -413,6 +413,30 @@ func (en *Engine) checkEffects(fn *ssa.Function, ct *FuncContract, prop string) 
 			for _, g := range gs {
 				out = append(out, effResult{fn: key, name: key + "/effects.noglobals:" + g, what: "package-level variable " + g + " is written below " + key, ok: false, where: writers(g)})
 			}
+		case "onlywrites":
+			// every inferred write effect must be one of the listed components (by substring)
+			if eff.all {
+				out = append(out, effResult{fn: key, name: key + "/effects.onlywrites:unknown", what: "the write effects of " + key + " cannot be bounded (dynamic call)", ok: false})
+				continue
+			}
+			var bad []string
+			for _, comp := range sortedKeys(eff.comps) {
+				okc := false
+				for _, a := range ec.Args {
+					if strings.Contains(comp, a) {
+						okc = true
+					}
+				}
+				if !okc {
+					bad = append(bad, comp)
+				}
+			}
+			if len(bad) == 0 {
+				out = append(out, effResult{fn: key, name: key + "/effects.onlywrites", what: "the only pre-existing memory written below " + key + " is: " + strings.Join(ec.Args, ", "), ok: true, scanned: scanned, sites: sites})
+			}
+			for _, c := range bad {
+				out = append(out, effResult{fn: key, name: key + "/effects.onlywrites:" + c, what: "component " + c + " is written below " + key + " but is not in its frame", ok: false, where: writers(c)})
+			}
 		case "nowrite":
 			if eff.all {
 				out = append(out, effResult{fn: key, name: key + "/effects.nowrite:unknown", what: "the write effects of " + key + " cannot be bounded (dynamic call)", ok: false})
